@@ -1625,7 +1625,7 @@ func c34ErrKind(err error) string {
 	switch {
 	case strings.Contains(msg, "compress"):
 		return "compression"
-	case planErrClass(err) != "" && !strings.HasPrefix(planErrClass(err), "other:"):
+	case planErrClass(err) != "" && planErrClass(err) != "other":
 		return planErrClass(err)
 	case strings.Contains(msg, "sign"):
 		return "signing"
